@@ -202,6 +202,9 @@ def case_refs(case):
                                   "got": got[key], "want": want[key], "runs": len(case["files"])})
     # results reference used as a file name replays the member's data.csv
     cp.paths_manager.add_named_paths(name="replay", paths=['~ id: R ~ $[*][yes()]'])
+    # a chain run on the replayed file: the second member reads what the first collected, not the replayed file
+    cp.paths_manager.add_named_paths(name="rechain", paths=['~ id: R1 ~ $[*][line_number() == 0]',
+                                                            '~ id: R2 source-mode: preceding ~ $[*][yes()]'])
     if A["lines"]:
         tick()
         caller, mobs2, raised = RG.run_group(cp, "replay", "$g.results.2026-:last.A", "collect_paths")
@@ -210,6 +213,16 @@ def case_refs(case):
         elif mobs2[0]["lines"] != A["lines"]:
             res["oracle"].append({"what": "results reference used as a file name does not replay the member's data.csv",
                                   "got": mobs2[0]["lines"], "want": A["lines"]})
+        if not raised and len(A["lines"]) >= 2 and not res["oracle"]:
+            tick()
+            caller, mobs4, raised4 = RG.run_group(cp, "rechain", "$g.results.2026-:last.A", "collect_paths")
+            if raised4:
+                res["oracle"].append({"what": f"a source-mode: preceding chain on a results reference raised {raised4}"})
+            elif len(mobs4) == 2 and (mobs4[0]["lines"] != A["lines"][:1] or mobs4[1]["lines"] != mobs4[0]["lines"]):
+                res["oracle"].append({"what": "in a chain run on a results reference a source-mode: preceding member does not read its predecessor's lines",
+                                      "first": mobs4[0]["lines"], "second": mobs4[1]["lines"], "replayed": A["lines"]})
+        if res["oracle"]:
+            pass
         elif case.get("rerun"):
             # the group gets a newer run of member A on changed data, addressed by a csvpaths reference (a partial re-run), on the
             # same instance; the very same reference string must then replay the newer run's data.csv
